@@ -247,7 +247,24 @@ namespace bloch::runtime {
             bool tracked = false;
             bool initialized = false;
         };
-        std::vector<std::unordered_map<std::string, VarEntry>> m_env;
+        // One lexical scope: the variables by name, plus the order in which they were declared,
+        // so that a scope's objects die in reverse declaration order whatever they are called.
+        struct Scope {
+            std::unordered_map<std::string, VarEntry> vars;
+            std::vector<std::string> order;
+            VarEntry& operator[](const std::string& name) {
+                if (vars.find(name) == vars.end())
+                    order.push_back(name);
+                return vars[name];
+            }
+            auto find(const std::string& name) { return vars.find(name); }
+            auto find(const std::string& name) const { return vars.find(name); }
+            auto begin() { return vars.begin(); }
+            auto end() { return vars.end(); }
+            auto begin() const { return vars.begin(); }
+            auto end() const { return vars.end(); }
+        };
+        std::vector<Scope> m_env;
         // Index into m_env of the first scope of the running call (lexical scoping).
         size_t m_frameStart = 0;
         std::vector<size_t> m_frameStack;
